@@ -135,7 +135,13 @@ class InterpMonitor:
             for k in range(itp.npt):
                 p = itp.point(k)
                 e = abs(q(p, itp) - vals[k])
-                b = C * (self.tol.get(name, np.inf) + 8 * EPS * mag(q, itp, p))
+                # the point is stored as x_base + xpt: its displacement from
+                # the base is only known to eps*|x_base| (tiny sets far from
+                # the origin), which the model amplifies by its gradient
+                gsens = float(np.abs(q.grad(p, itp)) @ (
+                    4 * EPS * np.maximum(np.abs(itp.x_base), np.abs(p))))
+                b = C * (self.tol.get(name, np.inf)
+                         + 8 * EPS * mag(q, itp, p) + gsens)
                 if not np.isfinite(b) or b > MEANINGLESS * vs:
                     self.skipped += 1
                     any_skipped = True
